@@ -22,6 +22,9 @@ type EvalCase struct {
 	// (computed from the model values of the case, never from the outcome).
 	Tags []string `json:"tags,omitempty"`
 	Note string   `json:"note,omitempty"`
+	// OrFail: an ordinary error is also acceptable (the operation may reject
+	// what it cannot represent, but must not change it silently).
+	OrFail bool `json:"or_fail,omitempty"`
 }
 
 const (
@@ -80,7 +83,7 @@ func evalMismatch1(c EvalCase) (kind, detail string, out obs.Outcome) {
 		}
 		return "panic", fmt.Sprintf("program: %s\nexpected: %s\nobserved: %s", c.Src, c.Expect, out), out
 	case "error":
-		if c.Expect == expectFail || c.Expect == expectNoPanic {
+		if c.Expect == expectFail || c.Expect == expectNoPanic || c.OrFail {
 			return "", "", out
 		}
 		return "error", fmt.Sprintf("program: %s\nexpected: %s\nobserved: %s", c.Src, c.Expect, out), out
@@ -137,25 +140,14 @@ func tagsOf(vs ...*model.V) []string {
 			}
 			// byte tuples anywhere in a set end up in one Bytes bucket: gaps
 			// between their indices cannot be represented
-			lo, hi, n := 1<<30, -(1 << 30), 0
-			seenIdx := map[int]bool{}
-			for _, e := range x.Elems {
-				if a, ok := e.SugarAttr(); ok && a == "@byte" {
-					at, _ := e.Get("@")
-					if i, ok := at.IsInt(); ok && !seenIdx[i] {
-						seenIdx[i] = true
-						n++
-						if i < lo {
-							lo = i
-						}
-						if i > hi {
-							hi = i
-						}
-					}
+			if idx := byteIdx(x); len(idx) > 0 {
+				m := map[int]bool{}
+				for _, i := range idx {
+					m[i] = true
 				}
-			}
-			if n > 0 && hi-lo+1 > n {
-				add("bytes-sparse")
+				if gapped(m) {
+					add("bytes-sparse")
+				}
 			}
 			if sv, ok := x.AsSeq(); ok {
 				if sv.Attr == "@char" && sv.Holes > 0 {
@@ -179,8 +171,12 @@ func byteIdx(v *model.V) []int {
 	for _, e := range v.Elems {
 		if a, ok := e.SugarAttr(); ok && a == "@byte" {
 			at, _ := e.Get("@")
-			if i, ok := at.IsInt(); ok {
-				idx = append(idx, i)
+			bv, _ := e.Get("@byte")
+			// only tuples the Bytes representation can hold land in its bucket
+			if b, ok := bv.IsInt(); ok && b >= 0 && b <= 255 {
+				if i, ok := at.IsInt(); ok {
+					idx = append(idx, i)
+				}
 			}
 		}
 	}
